@@ -119,6 +119,10 @@ fn corpus() -> Vec<&'static str> {
         "prog 3 3 0 - infd v0 I 1 3 infd v1 I 1 3 infd v2 I 1 3 distinctfd cons v0 cons v1 cons v2 nil",
         "prog 2 2 0 - ltefd v0 v1 infd v0 I 2 4 infd v1 I 0 3",
         "prog 2 2 0 - infd cons v0 cons v1 nil I 0 2 diseqfd v0 v1 eq v0 v1",
+        // a second domain with the same bounds and holes inside (C17-e), and through a unification of two domain variables
+        "prog 1 1 0 - infd v0 I 0 4 infd v0 V 3 0 2 4",
+        "prog 2 2 0 - infd v0 V 3 0 2 4 infd v1 I 0 4 eq v1 v0",
+        "prog 2 2 0 - infd v0 V 3 0 2 4 infd v1 I 0 4 eq v0 v1",
         // D15: labelling through a compound / list query term
         "prog 3 1 0 - eq v0 comp0 cons v1 cons v2 nil infd v1 I 0 1 infd v2 I 0 1",
         "prog 3 1 0 - eq v0 cons v1 cons cons v2 nil nil infd v1 I 0 1 infd v2 V 2 3 5 ltfd v1 v2",
